@@ -29,9 +29,11 @@ RULE = ("source {raw, compressed_segmentation, jpeg} x {deep gzip, flat "
         "pre-existing info}; two-scale sources with different chunk sizes "
         "per scale (cubic 2^3/4^3, and non-cubic (2,4,1)/(4,1,2) for "
         "unsharded pairs), 1-3 channels, position-coded voxels. The full product "
-        "(about 4500 conversions) runs in both tiers. "
-        "Non-trivial: encoding, layout or data type differs between source "
-        "and destination.")
+        "(about 6800 conversions) runs in both tiers. "
+        "Plus sequences of three convert_chunks() library calls in one "
+        "process (default options / one shared options dict). Non-trivial: "
+        "encoding, layout or data type differs between source and "
+        "destination.")
 ASSUMPTIONS = [
     "destination voxels must equal the source voxels as decoded by the "
     "package's reader (a lossy JPEG source is compared after decoding), "
@@ -50,10 +52,10 @@ WIDER = {"uint8": ["uint16", "uint32", "uint64", "float32"],
          "uint32": ["uint64"], "uint64": [], "float32": []}
 
 
-def sharding(t, enc):
+def sharding(t, enc, ienc=None):
     return {"@type": "neuroglancer_uint64_sharded_v1", "hash": "identity",
             "minishard_bits": t[0], "shard_bits": t[1], "preshift_bits": t[2],
-            "minishard_index_encoding": enc, "data_encoding": enc}
+            "minishard_index_encoding": ienc or enc, "data_encoding": enc}
 
 
 ANISO = ([2, 4, 1], [4, 1, 2])     # non-cubic chunk sizes (unsharded only)
@@ -69,7 +71,8 @@ def make_info(dtype, nch, enc, storage, aniso=False):
         if enc["encoding"] == "compressed_segmentation":
             s["compressed_segmentation_block_size"] = enc["block"]
         if storage["kind"] == "sharded":
-            s["sharding"] = sharding(storage["triple"], storage["enc"])
+            s["sharding"] = sharding(storage["triple"], storage["enc"],
+                                     storage.get("ienc"))
         scales.append(s)
     return {"type": "image", "data_type": dtype, "num_channels": nch,
             "scales": scales}
@@ -240,6 +243,8 @@ FILE_STS = [{"kind": "file", "flat": False, "gzip": True},
             {"kind": "file", "flat": True, "gzip": True}]
 SH1 = {"kind": "sharded", "triple": [1, 1, 0], "enc": "raw"}
 SH2 = {"kind": "sharded", "triple": [2, 1, 1], "enc": "gzip"}
+SH3 = {"kind": "sharded", "triple": [1, 1, 0], "enc": "raw", "ienc": "gzip"}
+SH4 = {"kind": "sharded", "triple": [1, 0, 1], "enc": "gzip", "ienc": "raw"}
 RAW = {"encoding": "raw"}
 CS8 = {"encoding": "compressed_segmentation", "block": [8, 8, 8]}
 CS2 = {"encoding": "compressed_segmentation", "block": [2, 2, 2]}
@@ -249,12 +254,12 @@ JPG = {"encoding": "jpeg"}
 def cases(tier):
     out = []
     sources = []
-    for st in FILE_STS + [SH1]:
+    for st in FILE_STS + [SH1, SH3]:
         sources.append((st, False))
     sources.append((FILE_STS[1], True))       # HTTP, flat no-gzip
     sources.append((FILE_STS[3], True))       # HTTP, flat gzip (gzip_static)
     sources.append((SH1, True))               # HTTP sharded
-    dests = FILE_STS + [SH1, SH2]
+    dests = FILE_STS + [SH1, SH2, SH3, SH4]
     n = 0
     for dtype, nch, src_encs in (("uint8", 1, [RAW, JPG]),
                                  ("uint8", 3, [RAW, JPG]),
@@ -298,10 +303,91 @@ def cases(tier):
     return out
 
 
+def _eval_api_sequences(col):
+    """the library function convert_chunks() called several times in one
+    process, with its default options and with one shared options dict:
+    every conversion must be correct whatever ran before it"""
+    import itertools
+
+    from neuroglancer_scripts import accessor, precomputed_io
+    from neuroglancer_scripts.scripts import convert_chunks as cc
+    d = sandbox.fresh_dir("c13s")
+    try:
+        srcs = {}
+        for name, st in (("plain", FILE_STS[1]), ("sharded", SH1)):
+            src = os.path.join(d, "src-" + name)
+            os.makedirs(src)
+            info = make_info("uint16", 1, RAW, st)
+            sandbox.install_atexit_capture()
+            acc = accessor.get_accessor_for_url(src, acc_options(st))
+            pio = precomputed_io.get_IO_for_new_dataset(info, acc)
+            for i, sc in enumerate(info["scales"]):
+                lv = level(info, i)
+                for c in pipeline.chunk_grid(sc["size"],
+                                             sc["chunk_sizes"][0]):
+                    pio.write_chunk(np.ascontiguousarray(
+                        lv[:, c[4]:c[5], c[2]:c[3], c[0]:c[1]]),
+                        sc["key"], c)
+            with sandbox.quiet():
+                sandbox.run_captured_exit_handlers()
+                if st["kind"] == "sharded":
+                    acc.close()
+            rd = pipeline.open_dataset(src)
+            srcs[name] = (src, [pipeline.read_scale(rd, i)
+                                for i in range(2)])
+        n = 0
+        for seq in itertools.permutations(
+                ["plain", "sharded", "plain", "sharded"], 3):
+            for shared in (False, True):
+                opts = {"flat": True, "gzip": False}
+                for k, name in enumerate(seq):
+                    n += 1
+                    dst = os.path.join(d, "dst%d" % n)
+                    os.makedirs(dst)
+                    case = {"kind": "api-sequence", "sequence": list(seq),
+                            "position": k, "shared_options": shared}
+                    try:
+                        with sandbox.quiet(), np.errstate(all="ignore"):
+                            if shared:
+                                cc.convert_chunks(srcs[name][0], dst,
+                                                  copy_info=True,
+                                                  options=opts)
+                            else:
+                                cc.convert_chunks(srcs[name][0], dst,
+                                                  copy_info=True)
+                            errs = sandbox.run_captured_exit_handlers()
+                        if errs:
+                            raise errs[0]
+                        rd = pipeline.open_dataset(dst)
+                        got = [pipeline.read_scale(rd, i) for i in range(2)]
+                        good = all(np.array_equal(a, b) for a, b in
+                                   zip(got, srcs[name][1]))
+                        if not good:
+                            raise AssertionError("voxels differ")
+                        col.ev(1, 1, "ok")
+                    except Exception as exc:
+                        col.ev(1, 1, "bad")
+                        col.violation(
+                            "C13/api-sequence/conversion-depends-on-earlier-"
+                            "calls/" + type(exc).__name__, case,
+                            "destination equal to the source",
+                            repr(exc)[:200])
+                    finally:
+                        sandbox.drop_captured_exit_handlers()
+                        sandbox.rm(dst)
+        col.sample({"kind": "api-sequence",
+                    "sequence": ["sharded", "plain", "sharded"]})
+    finally:
+        sandbox.drop_captured_exit_handlers()
+        sandbox.rm(d)
+
+
 def units(tier):
     cs = cases(tier)
     per = 20
-    return [{"cases": cs[i:i + per]} for i in range(0, len(cs), per)]
+    u = [{"cases": cs[i:i + per]} for i in range(0, len(cs), per)]
+    u.append({"kind": "api-sequences"})
+    return u
 
 
 def space(tier):
@@ -311,6 +397,9 @@ def space(tier):
 
 def run_unit(u):
     col = Collector()
+    if u.get("kind") == "api-sequences":
+        _eval_api_sequences(col)
+        return col.result()
     for case in u["cases"]:
         _eval(col, case)
     col.sample(u["cases"][0])
@@ -319,6 +408,12 @@ def run_unit(u):
 
 def replay(case):
     col = Collector()
+    if case.get("kind") == "api-sequence":
+        _eval_api_sequences(col)
+        return [r for r in col.records()
+                if r["case"].get("sequence") == case["sequence"]
+                and r["case"].get("shared_options")
+                == case["shared_options"]]
     c = dict(case)
     c.pop("scale", None)
     _eval(col, c)
